@@ -309,7 +309,7 @@ func (g *gen) racePass() {
 					obs = append(obs, s.R)
 				}
 				t := newTbl()
-				term := t.wrap(emit.App("CSeqDyn", emit.Nat(d.Via), "false", "0%Z", stepsCoq(t, reps, obs), "0%Z"))
+				term := t.wrap(emit.App("CSeqDyn", emit.Nat(d.Via+10), "false", "0%Z", stepsCoq(t, reps, obs), "0%Z")) // +10: one caller of many
 				js := map[string]interface{}{"kind": "dynamic-subscriber-concurrent", "scenario": sc, "via": d.Via, "caller": i,
 					"reports": repsJS(reps), "observed": resJS(obs)}
 				g.w.Count("dynamic-concurrent:" + sc)
